@@ -70,6 +70,21 @@ def mk_param(p):
     return v
 
 
+def unit_steps(definition):
+    """The factors of the unitconvert steps of a PROJ pipeline (PROJ goes through metres: at most two), each obtained
+    from PROJ itself; None if the pipeline contains anything else."""
+    steps = [st.strip() for st in definition.split("step")] if "proj=pipeline" in definition else [definition.strip()]
+    out = []
+    for st in steps:
+        if not st or st.startswith("proj=pipeline") or st.startswith("proj=noop"):
+            continue
+        if not st.startswith("proj=unitconvert"):
+            return None
+        args = [w for w in st.split() if w.startswith(("proj=", "xy_in=", "xy_out="))]
+        out.append(float(Transformer.from_pipeline(" ".join("+" + w for w in args)).transform(1.0, 1.0)[0]))
+    return out
+
+
 def crs_facts(proj):
     out = {}
     try:
@@ -77,7 +92,8 @@ def crs_facts(proj):
     except Exception as e:
         return {"crs_error": type(e).__name__}
     out["geographic"] = bool(crs.is_geographic)
-    out["crs_units"] = ac._get_proj_units(crs)
+    # pyproj's own answer (not area_config._get_proj_units, which is code under test)
+    out["unit_name"] = crs.axis_info[0].unit_name if crs.axis_info else None
     out["axis0"] = crs.axis_info[0].direction if crs.axis_info else None
     fac = {}
     if not crs.is_geographic:
@@ -85,7 +101,7 @@ def crs_facts(proj):
             try:
                 d = crs.to_dict()
                 d["units"] = u
-                fac[u] = float(Transformer.from_crs(d, crs, always_xy=True).transform(1.0, 1.0)[0])
+                fac[u] = unit_steps(Transformer.from_crs(d, crs, always_xy=True).definition)
             except Exception:
                 fac[u] = None
     out["fac"] = fac
@@ -100,7 +116,7 @@ def describe(a):
                 "height": None if a.height is None else int(a.height), "width": None if a.width is None else int(a.width),
                 "resolution": None if res is None else [float(x) for x in res]}
     return {"kind": "area", "extent": [float(x) for x in a.area_extent], "shape": [int(a.height), int(a.width)],
-            "id": a.area_id, "description": a.description, "extent_types": [type(x).__name__ for x in a.area_extent]}
+            "id": a.area_id, "description": a.description, "proj_id": getattr(a, "proj_id", None), "extent_types": [type(x).__name__ for x in a.area_extent]}
 
 
 def run_create(case):
@@ -171,27 +187,58 @@ def run_yaml(case):
         parsed = [yaml.safe_load(d) for d in dumps]
         out["parsed"] = jsonable(parsed)
         out["parsed_keys"] = [[type(k).__name__ for k in p.keys()] for p in parsed]
-        if mode == "one_string":
-            loaded = load_area_from_string("".join(dumps), *regions)
-        elif mode == "list_of_strings":
-            loaded = load_area_from_string(dumps, *regions)
-        elif mode == "file":
-            with tempfile.TemporaryDirectory(dir=".") as td:
+        # the text of each area as produced through the API of this mode
+        texts = []
+        with tempfile.TemporaryDirectory(dir=".") as td:
+            for k, a in enumerate(areas):
+                if mode == "file":
+                    fn = os.path.join(td, "one_%d.yaml" % k)
+                    a.dump(fn)
+                    t = open(fn).read()
+                elif mode == "stream":
+                    buf = io.StringIO()
+                    a.dump(buf)
+                    t = buf.getvalue()
+                elif mode == "legacy_alias":
+                    with warnings.catch_warnings():
+                        warnings.simplefilter("ignore")
+                        t = a.create_areas_def()
+                else:
+                    t = a.dump()
+                inj = case["areas"][k].get("inject_proj_id")
+                if inj is not None:
+                    # a hand-edited file: the same entry with a proj_id line added
+                    d = yaml.safe_load(t)
+                    (key, body), = d.items()
+                    body = dict(body)
+                    body["proj_id"] = inj
+                    t = yaml.safe_dump({key: body}, sort_keys=False, allow_unicode=True)
+                texts.append(t)
+            out["texts"] = texts
+            out["parsed_loaded"] = jsonable([yaml.safe_load(t) for t in texts])
+            if mode in ("one_string", "legacy_alias"):
+                loaded = load_area_from_string("".join(texts), *regions)
+            elif mode == "list_of_strings":
+                loaded = load_area_from_string(texts, *regions)
+            elif mode == "file":
                 fn = os.path.join(td, "areas.yaml")
-                for a in areas:
-                    a.dump(fn)      # dump(filename) appends
+                if any(x.get("inject_proj_id") is not None for x in case["areas"]):
+                    with open(fn, "w") as fh:
+                        fh.write("".join(texts))
+                else:
+                    for a in areas:
+                        a.dump(fn)      # dump(filename) appends
                 loaded = load_area(fn, *regions)
-        elif mode == "stream":
-            buf = io.StringIO()
-            for a in areas:
-                a.dump(buf)
-            loaded = load_area(io.StringIO(buf.getvalue()), *regions)
-        elif mode == "legacy_alias":
-            with warnings.catch_warnings():
-                warnings.simplefilter("ignore")
-                loaded = load_area_from_string("".join(a.create_areas_def() for a in areas), *regions)
-        else:
-            raise RuntimeError("mode")
+            elif mode == "stream":
+                if any(x.get("inject_proj_id") is not None for x in case["areas"]):
+                    loaded = load_area(io.StringIO("".join(texts)), *regions)
+                else:
+                    buf = io.StringIO()
+                    for a in areas:
+                        a.dump(buf)
+                    loaded = load_area(io.StringIO(buf.getvalue()), *regions)
+            else:
+                raise RuntimeError("mode")
         if not isinstance(loaded, list):
             loaded = [loaded]
         res = []
@@ -206,7 +253,7 @@ def run_yaml(case):
                 d["eq"] = bool(a == b)
                 d["crs_eq"] = bool(a.crs == b.crs)
                 if a.shape == b.shape:
-                    smp = case["samples"][areas.index(a)]
+                    smp = case["samples"][next(i_ for i_, x_ in enumerate(areas) if x_ is a)]
                     d["ll_a"] = lonlat_samples(a, smp)
                     d["ll_b"] = lonlat_samples(b, smp)
             res.append(d)
